@@ -95,7 +95,10 @@ Original == [k |-> 1, kin |-> 2, x0 |-> 1, q |-> Unassigned]
 HasCol(c) == c \in cfg.cols
 \* distinct per row and deliberately not monotone in the row number (sorting the rows must be visible)
 Perm == <<3, 5, 2, 6, 4>>
-RowVal(i, c) == IF c = "k" THEN Perm[i] ELSE IF c = "i" THEN Perm[i] + 1 ELSE IF c = "x" THEN Perm[i] + 2 ELSE Perm[i] + 5
+\* (row 2 gives q exactly the value its assignment has on the caller's model, 2 * x0: the row still turns q into that
+\*  plain number -- with another x in the same row the assignment would give something else)
+RowVal(i, c) == IF c = "k" THEN Perm[i] ELSE IF c = "i" THEN Perm[i] + 1 ELSE IF c = "x" THEN Perm[i] + 2
+                ELSE IF i = 2 THEN 2 * Original.x0 ELSE Perm[i] + 5
 
 KinEff(variant, kin, x0, q) ==
     IF variant = "ia" THEN kin + (IF q = Unassigned THEN 2 * x0 ELSE q)
